@@ -91,6 +91,39 @@ def handle : Handler
   | "pre.strofint", [i] => some (match intArg i with | some i => hexStr (strOfInt i) | none => badArgs)
   | "pre.zfill", [s, w] =>
     some (match unhexStr s, intArg w with | some s, some w => hexStr (zfill s w) | _, _ => badArgs)
+  | "pre.setitem", [l, i, v] =>
+    some (match strList l, intArg i, unhexStr v with
+      | some l, some i, some v => outExc (outList hexStr) (setItem l i v)
+      | _, _, _ => badArgs)
+  | "pre.delitem", [l, i] =>
+    some (match strList l, intArg i with
+      | some l, some i => outExc (outList hexStr) (delItem l i)
+      | _, _ => badArgs)
+  | "pre.setslice", [l, lo, hi, ys] =>
+    some (match strList l, optArg intArg lo, optArg intArg hi, strList ys with
+      | some l, some lo, some hi, some ys => outList hexStr (setSlice l lo hi ys)
+      | _, _, _, _ => badArgs)
+  | "pre.setops", [l, ops] =>
+    -- a sequence of set operations `a<hex>` add, `r<hex>` remove, `d<hex>` discard on the set built from l
+    some (match strList l, (if ops == "[]" then some [] else (ops.splitOn ",").mapM fun o =>
+        match o.toList with
+        | c :: rest => (unhexStr (String.ofList rest)).map fun v => (c, v)
+        | [] => none) with
+      | some l, some ops =>
+        let start : List Str := l.foldl setAdd []
+        let r : Except String (List Str) := ops.foldl (fun acc (cv : Char × Str) =>
+          match acc with
+          | .error e => .error e
+          | .ok s =>
+            if cv.1 == 'a' then .ok (setAdd s cv.2)
+            else if cv.1 == 'd' then .ok (setDiscard s cv.2)
+            else setRemove s cv.2) (.ok start)
+        outExc (outList hexStr) r
+      | _, _ => badArgs)
+  | "pre.enumerate", [l] =>
+    some (match strList l with
+      | some l => outList (fun (p : Int × Str) => toString p.1 ++ ":" ++ hexStr p.2) (enumerate l)
+      | none => badArgs)
   | "pre.plainint", args => str1 (fun s => outExc outInt (plainInt s)) args
   | "pre.plainintre", args => str1 (fun s => outBool (plainIntReFullmatch s).isSome) args
   | "pre.pyint", args => str1 (fun s => outExc outInt (pyIntPlain s)) args
